@@ -10,7 +10,7 @@ use serde_json::json;
 pub static META: Meta = Meta {
     id: "C03",
     level: "exploration",
-    rule: "generated programs biased to the partitioned execution path (single-atom bodies, filters, projections creating duplicates, computed columns, aggregates, multi-rule programs) x EDB, executed with num_workers in {1,2,3,4,8}; every multi-worker outcome is compared with the single-worker outcome; non-trivial = single-worker answer non-empty; distinct = program text + EDB",
+    rule: "generated programs in three mixes (join-free rules that take the partitioned execution path: single-atom bodies, filters, projections creating duplicates, computed columns, aggregates; small programs whose multi-clause heads mix join-free and joining/negating clauses; the general generator) x EDB, executed with num_workers in {1,2,3,4,8}; every multi-worker outcome is compared with the single-worker outcome; non-trivial = single-worker answer non-empty; distinct = program text + EDB",
     assumptions: &["set_num_workers is the user-visible knob (Config.storage.performance.num_threads feeds the same field)"],
     floor: 20,
     watchdog: (0, 0),
@@ -39,19 +39,15 @@ fn differing(p: &GenProgram) -> Vec<usize> {
 }
 
 pub fn run(ctx: &mut Ctx) {
-    let total = ctx.sz(240, 4800);
+    let total = ctx.sz(2400, 48_000);
     for k in ctx.cases(total) {
         let mut r = ctx.rng(k);
-        let joinless = r.chance(60, 100);
-        let opts = GenOpts {
-            max_body: if joinless { 1 } else { 2 },
-            agg: 45,
-            arith: 30,
-            neg: if joinless { 0 } else { 15 },
-            rec: 10,
-            mutual: 3,
-            max_edb: 12,
-            ..GenOpts::default()
+        // three mixes: join-free rules (the partitioned path), small programs with multi-clause heads that
+        // mix join-free and joining clauses, and the general generator
+        let opts = match k % 10 {
+            0..=3 => GenOpts { max_body: 1, agg: 45, arith: 30, neg: 0, rec: 10, mutual: 3, max_edb: 12, union: 40, ..GenOpts::default() },
+            4..=7 => GenOpts { max_body: 2, max_idb: 2, agg: 25, arith: 20, neg: 20, rec: 5, mutual: 0, max_edb: 12, union: 70, cmp: 15, ..GenOpts::default() },
+            _ => GenOpts { agg: 30, max_edb: 12, union: 50, ..GenOpts::default() },
         };
         let p = gen_program(&mut r, &opts);
         if refdl::evaluate(&p.clauses, &p.edb, false).is_err() {
